@@ -1331,6 +1331,155 @@ static void release_epilogue(ctx_t *c)
 }
 
 /*
+ * Shape epilogue: calibrations that are not 1x1 (2x1, 1x2, 2x2) are solved
+ * through the public interface and added next to whatever the history left:
+ * the index each add returns is free in the model, and find, get_name,
+ * get_type, get_rows, get_columns, get_frequencies see the calibration that
+ * was given there; the history's own calibrations stay as they were; the
+ * added ones are deleted again.
+ */
+static const struct {
+    const char *name;
+    vnacal_type_t type;
+    int rows, columns;
+} shape_tab[] = {
+    { "c16-tall", VNACAL_UE10, 2, 1 },
+    { "c16-wide", VNACAL_T8,   1, 2 },
+    { "c16-full", VNACAL_E12,  2, 2 },
+};
+#define NSHAPE_EP 3
+
+static void shape_epilogue(ctx_t *c)
+{
+    model *m = &c->m;
+    static const int stdh[3] = { VNACAL_SHORT, VNACAL_OPEN, VNACAL_MATCH };
+    static const double gam[3] = { -1.0, 1.0, 0.0 };
+    static const double fv[2] = { 1.0e9, 2.0e9 };
+    int ci[NSHAPE_EP] = { -1, -1, -1 };
+
+    for (int i = 0; i < NSHAPE_EP; ++i) {
+	const int rows = shape_tab[i].rows, cols = shape_tab[i].columns;
+	cx v[4][2];
+	cx *mp[4] = { v[0], v[1], v[2], v[3] };
+	vnacal_new_t *vnp = vnacal_new_alloc(c->vcp, shape_tab[i].type, rows,
+		cols, 2);
+	int before, bad = vnp == NULL ||
+	    vnacal_new_set_frequency_vector(vnp, fv) != 0;
+
+	ci[i] = -1;
+	for (int port = 1; port <= 2 && !bad; ++port) {
+	    if (port == 2 && !(rows == 2 && cols == 2))
+		break;
+	    for (int sidx = 0; sidx < 3 && !bad; ++sidx) {
+		for (int cell = 0; cell < rows * cols; ++cell)
+		    for (int k = 0; k < 2; ++k)
+			v[cell][k] = cell == (port == 1 ? 0 : 3) ?
+			    0.05 + 0.9 * gam[sidx] : 0.0;
+		bad = vnacal_new_add_single_reflect_m(vnp, mp, rows, cols,
+			stdh[sidx], port) != 0;
+	    }
+	}
+	for (int r = 0; r < rows && !bad; ++r)
+	    for (int cc = 0; cc < cols; ++cc)
+		for (int k = 0; k < 2; ++k)
+		    v[r * cols + cc][k] = r == cc ? 0.05 : 0.9;
+	bad = bad || vnacal_new_add_through_m(vnp, mp, rows, cols, 1, 2) != 0
+	    || vnacal_new_solve(vnp) != 0;
+	c->r->transitions += 6;
+	if (bad) {
+	    vf_fail(c->r, "probe:setup", "shape epilogue: a %dx%d %s "
+		    "calibration could not be made: %s", rows, cols,
+		    vnacal_type_to_name(shape_tab[i].type), c->elog.count ?
+		    c->elog.msg[(c->elog.count - 1) % VF_ERRLOG_MAX] : "");
+	    if (vnp) vnacal_new_free(vnp);
+	    goto out;
+	}
+	before = c->elog.nonwarn;
+	errno = 0;
+	ci[i] = vnacal_add_calibration(c->vcp, shape_tab[i].name, vnp);
+	vnacal_new_free(vnp);
+	++c->r->transitions;
+	expect_ok(c, "vnacal_add_calibration", ci[i], before);
+	if (ci[i] < 0)
+	    goto out;
+	if (ci[i] < MAXCI && m->cal[ci[i]].live) {
+	    vf_fail(c->r, "add-index:occupied", "vnacal_add_calibration(\"%s"
+		    "\") returned %d, the index of the live calibration "
+		    "\"%s\"", shape_tab[i].name, ci[i],
+		    names[m->cal[ci[i]].name]);
+	    goto out;
+	}
+	for (int j = 0; j < i; ++j)
+	    if (ci[j] == ci[i]) {
+		vf_fail(c->r, "add-index:occupied", "vnacal_add_calibration("
+			"\"%s\") returned %d, the index of \"%s\"",
+			shape_tab[i].name, ci[i], shape_tab[j].name);
+		goto out;
+	    }
+    }
+    for (int i = 0; i < NSHAPE_EP; ++i) {
+	const char *nm = vnacal_get_name(c->vcp, ci[i]);
+	int fi = vnacal_find_calibration(c->vcp, shape_tab[i].name);
+	int ty = (int)vnacal_get_type(c->vcp, ci[i]);
+	int rr = vnacal_get_rows(c->vcp, ci[i]);
+	int cc = vnacal_get_columns(c->vcp, ci[i]);
+	int nf = vnacal_get_frequencies(c->vcp, ci[i]);
+	int end = vnacal_get_calibration_end(c->vcp);
+
+	c->r->transitions += 7;
+	if (fi != ci[i] || nm == NULL || strcmp(nm, shape_tab[i].name) != 0) {
+	    vf_fail(c->r, "mismatch:vnacal_find_calibration", "shape "
+		    "epilogue: \"%s\" added at %d: find says %d, get_name "
+		    "\"%s\"", shape_tab[i].name, ci[i], fi, nm ? nm : "NULL");
+	    goto out;
+	}
+	if (ty != (int)shape_tab[i].type || rr != shape_tab[i].rows ||
+		cc != shape_tab[i].columns || nf != 2) {
+	    vf_fail(c->r, "mismatch:vnacal_get_rows", "shape epilogue: "
+		    "calibration %d \"%s\" was made %s %dx%d with 2 "
+		    "frequencies; the getters say type %d, %dx%d, %d "
+		    "frequencies", ci[i], shape_tab[i].name,
+		    vnacal_type_to_name(shape_tab[i].type),
+		    shape_tab[i].rows, shape_tab[i].columns, ty, rr, cc, nf);
+	    goto out;
+	}
+	if (end <= ci[i]) {
+	    vf_fail(c->r, "mismatch:vnacal_get_calibration_end", "shape "
+		    "epilogue: end %d with a calibration at %d", end, ci[i]);
+	    goto out;
+	}
+    }
+    /* the history's own calibrations are as they were */
+    for (int j = 0; j < MAXCI && c->r->status == VF_OK; ++j)
+	if (m->cal[j].live) {
+	    const char *nm = vnacal_get_name(c->vcp, j);
+	    if (nm == NULL || strcmp(nm, names[m->cal[j].name]) != 0 ||
+		    vnacal_get_rows(c->vcp, j) != 1 ||
+		    vnacal_get_columns(c->vcp, j) != 1 ||
+		    vnacal_get_type(c->vcp, j) != cfg[m->cal[j].cfg].type)
+		vf_fail(c->r, "mismatch:vnacal_get_name", "shape epilogue: "
+			"calibration %d \"%s\" of the history reads \"%s\" "
+			"%dx%d after three other calibrations were added", j,
+			names[m->cal[j].name], nm ? nm : "NULL",
+			vnacal_get_rows(c->vcp, j),
+			vnacal_get_columns(c->vcp, j));
+	}
+out:
+    for (int i = 0; i < NSHAPE_EP; ++i)
+	if (ci[i] >= 0) {
+	    int before = c->elog.nonwarn;
+	    int rc = vnacal_delete_calibration(c->vcp, ci[i]);
+	    if (c->r->status == VF_OK) {
+		expect_ok(c, "vnacal_delete_calibration", rc, before);
+		if (vnacal_find_calibration(c->vcp, shape_tab[i].name) != -1)
+		    vf_fail(c->r, "mismatch:vnacal_find_calibration", "shape "
+			    "epilogue: \"%s\" is found after it was deleted",
+			    shape_tab[i].name);
+	    }
+	}
+}
+
+/*
  * Regrid epilogue: one unknown reflection (constant truth) is solved by
  * three vnacal_new_t of the same vnacal_t in turn, on grids of the same
  * length with other frequencies and of another length; after every solve
@@ -1888,6 +2037,14 @@ static void run_hist(int tier, const int *ops, int n, vf_result *r)
     if (r->status == VF_OK && n > 0) {
 	vf_errlog_reset(&c.elog);
 	regrid_epilogue(&c);
+    }
+    /* the shape epilogue depends on the calibration table only */
+    if (r->status == VF_OK && n > 0) {
+	int k = optab[ops[n - 1]].kind;
+	if (k == OP_ADDCAL || k == OP_DELCAL) {
+	    vf_errlog_reset(&c.elog);
+	    shape_epilogue(&c);
+	}
     }
     /* the kit epilogue depends on the state only through the parameter
        table and what holds it: a history ending in an operation that
